@@ -774,24 +774,34 @@ static int driverMain(Check &c, int argc, char **argv)
         if(++perTag[ci.v.tag] > 2 || processed >= 10) { printf("NOTE: further violation class %s (%llu runs, first index %llu) not minimised\n", it->first.c_str(), (unsigned long long)ci.count, (unsigned long long)ci.firstIdx); exitCode = 1; continue; }
         ++processed;
         // determinism gate 1: same plan, two forked executions, same class
+        std::string clsName = it->first;
         EvalResult r1 = evalInChild(c, plan, c.cpuBudgetSec(), g_sanitized);
         EvalResult r2 = evalInChild(c, plan, c.cpuBudgetSec(), g_sanitized);
-        if(c.verdictMayFlicker()) for(int tries = 0; tries < 6 && !(r1.v.set && r2.v.set && r1.v.cls() == it->first && r2.v.cls() == it->first); ++tries) { EvalResult r = evalInChild(c, plan, c.cpuBudgetSec(), g_sanitized); if(!(r1.v.set && r1.v.cls() == it->first)) r1 = r; else r2 = r; }
-        if(!r1.v.set || !r2.v.set || r1.v.cls() != it->first || r2.v.cls() != it->first)
+        if(c.verdictMayFlicker()) for(int tries = 0; tries < 6 && !(r1.v.set && r2.v.set && r1.v.cls() == clsName && r2.v.cls() == clsName); ++tries) { EvalResult r = evalInChild(c, plan, c.cpuBudgetSec(), g_sanitized); if(!(r1.v.set && r1.v.cls() == clsName)) r1 = r; else r2 = r; }
+        // A wild access is labelled by ASan after what happens to lie at the address (heap-buffer-overflow, unknown-crash, SEGV, ...): inside a worker
+        // that has executed other plans before, the neighbourhood differs from a fresh process. When both fresh evaluations agree with each other and
+        // all three are sanitizer memory-error classes, the fresh label is the canonical one (same plan, same defect); every other disagreement stays a harness error.
+        if(r1.v.set && r2.v.set && r1.v.cls() == r2.v.cls() && r1.v.cls() != clsName && clsName.compare(0, 5, "asan:") == 0 && r1.v.cls().compare(0, 5, "asan:") == 0)
         {
-            printf("HARNESS-ERROR: class %s at index %llu did not reproduce deterministically (got '%s' / '%s')\n", it->first.c_str(),
+            if(classes.count(r1.v.cls())) { printf("NOTE: violation class %s (%llu runs, first index %llu) is class %s in a fresh process (reported there)\n", clsName.c_str(), (unsigned long long)ci.count, (unsigned long long)ci.firstIdx, r1.v.cls().c_str()); exitCode = 1; continue; }
+            printf("NOTE: violation class %s is labelled %s in a fresh process; reported under the latter\n", clsName.c_str(), r1.v.cls().c_str());
+            clsName = r1.v.cls();
+        }
+        if(!r1.v.set || !r2.v.set || r1.v.cls() != clsName || r2.v.cls() != clsName)
+        {
+            printf("HARNESS-ERROR: class %s at index %llu did not reproduce deterministically (got '%s' / '%s')\n", clsName.c_str(),
                    (unsigned long long)ci.firstIdx, r1.v.set ? r1.v.cls().c_str() : "clean", r2.v.set ? r2.v.cls().c_str() : "clean");
             harnessError = true; continue;
         }
-        printf("minimising class %s (first index %llu, %zu ops)...\n", it->first.c_str(), (unsigned long long)ci.firstIdx, plan.ops.size());
-        Minimiser m(c, ci.v.tag == "hang" ? std::max(3, c.cpuBudgetSec() / 4) : std::max(3, c.cpuBudgetSec() / 2), g_sanitized, it->first);
+        printf("minimising class %s (first index %llu, %zu ops)...\n", clsName.c_str(), (unsigned long long)ci.firstIdx, plan.ops.size());
+        Minimiser m(c, ci.v.tag == "hang" ? std::max(3, c.cpuBudgetSec() / 4) : std::max(3, c.cpuBudgetSec() / 2), g_sanitized, clsName);
         m.run(plan);
         ci.minOps = plan.ops.size();
         char rp[512]; snprintf(rp, sizeof rp, "%s/replays/%s-%llu-%llu.plan", g_root.c_str(), c.id(), (unsigned long long)baseSeed, (unsigned long long)ci.firstIdx);
         std::string text = planToString(plan, NULL);
         {
             // annotate with op names for the reader
-            std::ostringstream os; os << "verif-plan 1\n# class " << it->first << "\n# detail " << ci.v.detail << "\n# generators " << VERIF_GEN_HASH << "\n";
+            std::ostringstream os; os << "verif-plan 1\n# class " << clsName << "\n# detail " << ci.v.detail << "\n# generators " << VERIF_GEN_HASH << "\n";
             std::string body = text.substr(text.find('\n') + 1);
             std::istringstream is(body); std::string ln; size_t oi = 0;
             while(std::getline(is, ln))
@@ -809,14 +819,14 @@ static int driverMain(Check &c, int argc, char **argv)
             std::string cmd = std::string(self) + " --replay " + rp + " 2>/dev/null";
             FILE *pp = popen(cmd.c_str(), "r"); std::string out; char b[1024];
             if(pp) { while(fgets(b, sizeof b, pp)) out += b; pclose(pp); }
-            if(out.find("REPLAY class=" + it->first) == std::string::npos)
+            if(out.find("REPLAY class=" + clsName) == std::string::npos)
             {
-                printf("HARNESS-ERROR: fresh-process replay of %s did not reproduce class %s: %s\n", rp, it->first.c_str(), out.c_str());
+                printf("HARNESS-ERROR: fresh-process replay of %s did not reproduce class %s: %s\n", rp, clsName.c_str(), out.c_str());
                 harnessError = true; continue;
             }
         }
         printf("VIOLATION property=%s replay=%s\n", c.id(), rp);
-        printf("  class=%s runs=%llu first_index=%llu ops %zu->%zu (%d evals) detail=%s\n", it->first.c_str(), (unsigned long long)ci.count,
+        printf("  class=%s runs=%llu first_index=%llu ops %zu->%zu (%d evals) detail=%s\n", clsName.c_str(), (unsigned long long)ci.count,
                (unsigned long long)ci.firstIdx, ci.origOps, ci.minOps, m.evals, ci.v.detail.c_str());
         exitCode = 1;
     }
